@@ -7,7 +7,7 @@
    Layers:  (1) classes of values and the DFA states in which they are neutral (Tmpl/Classes);
             (2) validator regular expressions are inside / outside those classes (Tmpl/Regex,
                 Tmpl/Validators) -- positive theorems for the sound validators, refutations with the
-                offending string for the unsound ones (F06 F28 F29 F54).  The validators repaired in
+                offending string for the unsound ones (F06 F28 F29 F54 F65).  The validators repaired in
                 /repo (F27 rewrites d7c2e82, F26 limit-req-* 3e8e85f, F52 return headers 7a5e973,
                 F62 match.send c1888e6) are transcribed as they are NOW and have safety theorems;
                 their former refutations are history and are no longer stated here;
@@ -167,6 +167,25 @@ Theorem C06_http_header_name_word : forall s, matches http_header_name s = true 
 Proof. exact http_header_name_word. Qed.
 Print Assumptions C06_http_header_name_word.
 
+(* action.proxy.rewritePath: WHICH validator language applies and WHERE the value is rendered depends on context
+   selectors: the kind of the route path (prefix, exact, and the two regular-expression kinds) and the kind of location (top level, default
+   action of a route with matches, inside matches, inside splits).  Tmpl.Validators.rewrite_path_lang /
+   rewrite_path_site transcribe both choices (compared with the real validator and generator per selector on
+   every run).  In every row but the two of F65 the selected language is neutral at the selected site; the
+   exact-match row at top level is: strict path language, value glued bare after proxy_pass. *)
+Theorem C06_rewrite_path_safe :
+  forall k l s,
+    rewrite_path_row_ok k l = true -> matches (rewrite_path_lang k l) s = true ->
+    exists q', run (site_state (rewrite_path_site k l)) s = (q', []) /\ In q' (site_ends (rewrite_path_site k l)).
+Proof. exact rewrite_path_safe. Qed.
+Print Assumptions C06_rewrite_path_safe.
+
+Theorem C06_rewrite_path_exact_top :
+  forall s, matches (rewrite_path_lang PKExact LTop) s = true ->
+    exists q', run QBare s = (q', []) /\ In q' [QBare; QVar].
+Proof. exact rewrite_path_exact_top. Qed.
+Print Assumptions C06_rewrite_path_exact_top.
+
 (* sizes, offsets and rates are plain words *)
 Theorem C06_size_word : forall s, matches size s = true -> in_class CWord s.
 Proof. exact size_word. Qed.
@@ -213,6 +232,15 @@ Theorem C06_grpc_service_refuted :
   structural (snd (run QBare ("a" ++ ";"))) = [Semi].
 Proof. exact grpc_service_refuted. Qed.
 Print Assumptions C06_grpc_service_refuted.
+
+(* F65  the default action of a route with matches: bare-word language (accepts a double quote), quoted site *)
+Theorem C06_rewrite_path_default_action_refuted :
+  forall k, is_regex_kind k = false ->
+    exists s, rewrite_path_accepts k LTopWithMatches s = true /\
+              rewrite_path_site k LTopWithMatches = SInDQ /\
+              run QDQ s = (QNeedSpace, [TokEnd]).
+Proof. exact rewrite_path_default_action_refuted. Qed.
+Print Assumptions C06_rewrite_path_default_action_refuted.
 
 (* what a repair of F29 (and F28 / F54: Tmpl.ValidatorsProofs) would use is safe *)
 Theorem C06_ts_hash_fixed_safe :
